@@ -19,3 +19,8 @@ def sim_monitor(ctx, name, test, env, summary_prefix, timeout=3000):
 def transfer(ctx, quick=60, thorough=2500, events=250):
     return sim_monitor(ctx, "sim-transfer", "TestVerifSimTransfer",
                        {"VERIF_N": ctx.scale(quick, thorough), "VERIF_EVENTS": events}, "SIMTRANSFER")
+
+
+def wire_sack_monitor(ctx):
+    """P_C05 on the wire history of simulated runs (SIMFAIL prop=C05 lines of the transfer scenarios)."""
+    return transfer(ctx)
